@@ -17,6 +17,7 @@ import GdVerif.Run.Real
 import GdVerif.Run.Cli
 import GdVerif.Run.Quake
 import GdVerif.Run.GenQuake
+import GdVerif.Run.QuakeFaults
 import GdVerif.Run.Unreal2
 import GdVerif.Run.GenUnreal2
 import GdVerif.Run.Minecraft
@@ -50,6 +51,7 @@ def allEntries : List (String × (List String → String)) := List.flatten [
   realEntries,
   cliEntries,
   quakeEntries,
+  quakeFaultEntries,
   unreal2Entries,
   McDrv.minecraftEntries,
   gs3Entries,
